@@ -198,10 +198,15 @@ func CheckC12(c C12Case, rec *Rec) error {
 		if err = net.LoadSensors(c.Inputs2); err != nil {
 			return fmt.Errorf("Network.LoadSensors (second vector): %v", err)
 		}
-		if _, err = net.ForwardSteps(steps); err != nil {
+		if c.Mix > 0 && nHid > 0 {
+			// the other way of activation of the standard network for the second vector
+			if _, err = net.RecursiveSteps(); err != nil {
+				return fmt.Errorf("Network.RecursiveSteps (second vector, after forward stepping): %v", err)
+			}
+		} else if _, err = net.ForwardSteps(steps); err != nil {
 			return fmt.Errorf("Network.ForwardSteps(%d) (second vector): %v", steps, err)
 		}
-		if err = compareOutputs(fmt.Sprintf("second input vector on the same network, Network.ForwardSteps(%d)", steps), net.ReadOutputs(), *ref2); err != nil {
+		if err = compareOutputs(fmt.Sprintf("second input vector on the same network, Network.ForwardSteps(%d) (Network.RecursiveSteps when the ways are mixed)", steps), net.ReadOutputs(), *ref2); err != nil {
 			return err
 		}
 		// the outputs read after the first evaluation are values of their own
@@ -226,7 +231,11 @@ func CheckC12(c C12Case, rec *Rec) error {
 				}
 			}
 			_ = net.LoadSensors(c.Inputs2)
-			if _, err = net.RecursiveSteps(); err != nil {
+			if c.Mix > 0 {
+				if _, err = net.ForwardSteps(depth); err != nil {
+					return fmt.Errorf("Network.ForwardSteps(%d) (second vector, after recursive activation): %v", depth, err)
+				}
+			} else if _, err = net.RecursiveSteps(); err != nil {
 				return fmt.Errorf("Network.RecursiveSteps (second vector): %v", err)
 			}
 			if err = compareOutputs("second input vector on the same network, Network.RecursiveSteps", net.ReadOutputs(), *ref2); err != nil {
